@@ -15,7 +15,7 @@ PROP_BITS = (1, 2, 3, 4, 5, 6, 7)
 
 def sizes(tier):
     if tier == "quick":
-        return {"wordlist": 140, "lexstat": 14, "alignments": 12, "reader": 220, "blocks": 60}
+        return {"wordlist": 140, "lexstat": 11, "alignments": 11, "reader": 220, "blocks": 60}
     return {"wordlist": 6000, "lexstat": 500, "alignments": 250, "reader": 10000, "blocks": 3000}
 
 
